@@ -77,7 +77,7 @@ def gen_loss_desc(rng, kind, D, N):
     return d
 
 
-def gen_data(rng, N, D, E, filters, shapes=None):
+def gen_data(rng, N, D, E, filters, shapes=None, int_data=False):
     """Real (N, D) and simulated (E, N, D) data; coordinates that feed a log filter are positive."""
     shapes = shapes or ["normal", "normal", "heavy", "constant", "twovalued", "tied", "monotone", "walk"]
     real = np.empty((N, D))
@@ -112,6 +112,16 @@ def gen_data(rng, N, D, E, filters, shapes=None):
         real[:, i] = one()
         for e in range(E):
             sim[e, :, i] = one()
+    if int_data:
+        # count-like data: integer-typed arrays are legitimate inputs (SIR-type models); values stay exactly representable
+        sc = 10.0 / max(1e-12, float(np.max(np.abs(sim))))
+        sim = np.round(sim * sc * 10).astype(np.int64)
+        real = np.round(real * sc * 10).astype(np.int64)
+        if filters is not None:
+            for i, f in enumerate(filters):
+                if f is not None and f[0] in ("log_hp", "diff_log_demean"):
+                    sim[:, :, i] = np.abs(sim[:, :, i]) + 1
+                    real[:, i] = np.abs(real[:, i]) + 1
     return real, sim, kinds
 
 
